@@ -12,9 +12,9 @@ package data
 //@ pure func sortedStrict(a []int) bool = forall i, j int :: 0 <= i && i < j && j < len(a) ==> a[i] < a[j]
 //@ pure func inv(s IntSet) bool = sortedStrict(s.data)
 //@ -- abstract view: x is a member of the set held in slice a
-//@ pure func member(a []int, x int) bool = exists k int :: 0 <= k && k < len(a) && a[k] == x
+//@ opaque func member(a []int, x int) bool = exists k int :: 0 <= k && k < len(a) && a[k] == x
 
-//@ pure func memberN(a []int, n int, x int) bool = exists k int :: 0 <= k && k < n && a[k] == x
+//@ opaque func memberN(a []int, n int, x int) bool = exists k int :: 0 <= k && k < n && a[k] == x
 
 //@ assume func sort.SearchInts(a []int, x int) (r int)
 //@   ensures 0 <= r && r <= len(a)
